@@ -38,6 +38,10 @@ Muts == {"none", "dest_foreign", "dest_absent", "dest_other_binding", "stale", "
          \* dest_extends: a Destination that begins with an own endpoint and goes on (path, host suffix)
          \* bad_enum: an attribute of an enumerated type with a value outside the enumeration (Comparison="strongest")
          "dest_extends_path", "dest_extends_host", "bad_enum",
+         \* schema_reqattr: a required attribute is missing on an element further down (IDPEntry without ProviderID, a queried
+         \* Attribute without Name); body_first_other / body_two: a SOAP Body that holds a second element -- a response in front
+         \* of the request, or two requests (the Body of a SOAP-bound SAML message holds exactly that message)
+         "schema_reqattr", "body_first_other", "body_two",
          "wrong_root", "schema", "schema_child",      \* a required attribute / a required child element is missing
          "garbled_base64", "garbled_deflate", "truncated_xml", "not_xml"}
 \* issuerKey: metadata holds a signing key for the requester, or none
@@ -53,6 +57,8 @@ WellFormed(s) ==
     /\ (s.mut = "garbled_deflate" => s.binding = "redirect")
     /\ (s.mut = "schema_child" => s.rtype \in {"authn", "assertionid"})
     /\ (s.mut = "bad_enum" => s.rtype = "authn")
+    /\ (s.mut = "schema_reqattr" => s.rtype \in {"authn", "attrquery"})
+    /\ (s.mut \in {"body_first_other", "body_two"} => s.binding = "soap")
     /\ (s.mut \in {"dest_extends_path", "dest_extends_host"} => s.endpoint = "configured")   \* the request types with a child of minimum occurrence 1
     /\ (s.mut = "garbled_base64" => s.binding # "soap")
     /\ (s.endpoint = "otherBindingOnly" => s.binding = "post")    \* receiver publishes a redirect endpoint only
@@ -69,7 +75,7 @@ Init == scn \in {s \in Scn : WellFormed(s)} /\ pc = "unravel" /\ verdict = "none
 Refuse == verdict' = "refuse" /\ pc' = "done" /\ UNCHANGED scn
 Goto(p) == pc' = p /\ UNCHANGED <<scn, verdict>>
 
-Unravel == pc = "unravel" /\ IF scn.mut \in {"garbled_base64", "garbled_deflate"} \/ scn.rtype = "authzquery" THEN Refuse ELSE Goto("signature")
+Unravel == pc = "unravel" /\ IF scn.mut \in {"garbled_base64", "garbled_deflate", "body_first_other", "body_two"} \/ scn.rtype = "authzquery" THEN Refuse ELSE Goto("signature")
 \* signature_check: parse as the expected type, then _check_signature when a signature is there
 Signature ==
     /\ pc = "signature"
@@ -79,7 +85,7 @@ Signature ==
        ELSE IF scn.sig = "valid" THEN Goto("schema")
        ELSE IF scn.sig = "invalid" /\ scn.certOnly /\ ~Fixed THEN Goto("schema")      \* pinned: "if verified or only_valid_cert"
        ELSE Refuse                                          \* invalid; wrapped (repaired _check_signature)
-Schema == pc = "schema" /\ IF scn.mut \in {"schema", "schema_child", "stale_offset", "future_offset", "bad_enum"} THEN Refuse ELSE Goto("verify")
+Schema == pc = "schema" /\ IF scn.mut \in {"schema", "schema_child", "schema_reqattr", "stale_offset", "future_offset", "bad_enum"} THEN Refuse ELSE Goto("verify")
 \* Request._verify
 DestChecked == scn.endpoint = "configured" \/ Fixed
 Verify ==
@@ -90,7 +96,7 @@ Verify ==
        ELSE verdict' = "hand" /\ pc' = "done" /\ UNCHANGED scn
 
 \* ---- contract
-MustRefuse == \/ scn.mut \in {"dest_foreign", "stale", "future", "stale26h", "future26h", "version_11", "version_2", "wrong_root", "schema", "schema_child", "stale_offset", "future_offset", "dest_extends_path", "dest_extends_host", "bad_enum", "garbled_base64",
+MustRefuse == \/ scn.mut \in {"dest_foreign", "stale", "future", "stale26h", "future26h", "version_11", "version_2", "wrong_root", "schema", "schema_child", "stale_offset", "future_offset", "dest_extends_path", "dest_extends_host", "bad_enum", "schema_reqattr", "body_first_other", "body_two", "garbled_base64",
                               "garbled_deflate", "truncated_xml", "not_xml"}
               \/ scn.sig \in {"invalid", "wrapped", "wrapped_ownref", "wrapped_prefix"}
               \/ (scn.sig # "none" /\ scn.issuerKey = "nokey")          \* a signature must verify under the issuer's metadata key
